@@ -273,12 +273,18 @@ impl Suite for Gossip {
                     }
                     return check_content(st);
                 }
-                let prev = st.model.get(&k).cloned();
-                cx.count(&format!("gossip.announced.{}", relation(*t, prev.as_ref().map(|r| r.ts))));
-                if prev.is_some() {
+                // `old` is fully initialised also when nothing is stored: memcheck must stay quiet on the
+                // harness's own (optimised) comparisons, so that every report concerns the code under test.
+                let (stored, old) = match st.model.get(&k) {
+                    Some(r) => (true, r.clone()),
+                    None => (false, Row { id: 0, ts: 0, variant: 0, relay: Relay::Dont }),
+                };
+                let old_ts = if stored { Some(old.ts) } else { None };
+                cx.count(&format!("gossip.announced.{}", relation(*t, old_ts)));
+                if stored {
                     cx.contended += 1;
                 }
-                if *t >= I64MAX - 2 || prev.as_ref().is_some_and(|r| r.ts >= I64MAX - 2) {
+                if *t >= I64MAX - 2 || (stored && old.ts >= I64MAX - 2) {
                     cx.count("gossip.announced.at-i64-boundary");
                 }
                 if st.model.keys().any(|o| o.0 == k.0 && *o != k) {
@@ -288,51 +294,41 @@ impl Suite for Gossip {
                     Ok(g) => g,
                     Err(e) => return inconclusive("gossip announced failed on in-range input", e),
                 };
-                let replace = prev.as_ref().is_none_or(|r| *t > r.ts);
-                let w = json!({"op": Self::to_json(op), "stored_before": prev.as_ref().map(|r| json!({"id": r.id, "ts": r.ts, "variant": r.variant})), "returned": got});
-                match (&prev, replace) {
-                    (None, _) => {
-                        let Some(id) = got else {
-                            return viol("C24/gossip/first-announcement-of-its-kind-not-accepted", w);
-                        };
-                        if st.model.values().any(|r| r.id == id) {
-                            return viol("C24/gossip/new-announcement-got-id-of-another-stored-announcement", w);
-                        }
-                        st.model.insert(k, Row { id, ts: *t, variant: *variant, relay: Relay::Dont });
+                let replace = !stored || *t > old.ts;
+                let before = if stored { json!({"id": old.id, "ts": old.ts, "variant": old.variant}) } else { Value::Null };
+                let w = json!({"op": Self::to_json(op), "stored_before": before, "returned": got});
+                if !stored {
+                    let Some(id) = got else {
+                        return viol("C24/gossip/first-announcement-of-its-kind-not-accepted", w);
+                    };
+                    if st.model.values().any(|r| r.id == id) {
+                        return viol("C24/gossip/new-announcement-got-id-of-another-stored-announcement", w);
                     }
-                    (Some(old), true) => {
-                        st.model.insert(k, Row { id: old.id, ts: *t, variant: *variant, relay: old.relay });
-                    }
-                    (Some(_), false) => {}
+                    st.model.insert(k, Row { id, ts: *t, variant: *variant, relay: Relay::Dont });
+                } else if replace {
+                    st.model.insert(k, Row { id: old.id, ts: *t, variant: *variant, relay: old.relay });
                 }
                 // content first: which clause failed is more telling than the return value
-                if let (Some(old), false) = (&prev, replace) {
-                    if old.ts < I64MAX {
-                        let now = match run_filtered(&st.db, ALL, 0, I64MAX)? {
-                            Ok(g) => g,
-                            Err(e) => return inconclusive("gossip read failed", e),
-                        };
-                        if now.get(&k) == Some(&ann) && build(k, old.ts, old.variant) != ann {
-                            return viol("C24/gossip/announcement-replaced-by-not-strictly-newer-one", w);
-                        }
+                if stored && (if replace { *t < I64MAX } else { old.ts < I64MAX }) {
+                    let now = match run_filtered(&st.db, ALL, 0, I64MAX)? {
+                        Ok(g) => g,
+                        Err(e) => return inconclusive("gossip read failed", e),
+                    };
+                    let old_ann = build(k, old.ts, old.variant);
+                    if !replace && now.get(&k) == Some(&ann) && old_ann != ann {
+                        return viol("C24/gossip/announcement-replaced-by-not-strictly-newer-one", w);
                     }
-                }
-                if let (Some(old), true) = (&prev, replace) {
-                    if *t < I64MAX {
-                        let now = match run_filtered(&st.db, ALL, 0, I64MAX)? {
-                            Ok(g) => g,
-                            Err(e) => return inconclusive("gossip read failed", e),
-                        };
-                        if now.get(&k) == Some(&build(k, old.ts, old.variant)) {
-                            return viol("C24/gossip/strictly-newer-announcement-not-stored", w);
-                        }
+                    if replace && now.get(&k) == Some(&old_ann) {
+                        return viol("C24/gossip/strictly-newer-announcement-not-stored", w);
                     }
                 }
                 check_content(st)?;
-                let want = match (&prev, replace) {
-                    (None, _) => got, // checked above
-                    (Some(old), true) => Some(old.id),
-                    (Some(_), false) => None,
+                let want = if !stored {
+                    got // checked above
+                } else if replace {
+                    Some(old.id)
+                } else {
+                    None
                 };
                 if got != want {
                     return viol("C24/gossip/announced-result-disagrees-with-model", json!({"got": got, "want": want, "case": w}));
